@@ -223,6 +223,11 @@ class World:
         self.trace = []  # (kind, outcome class)
         self.oprecs = {}  # id(op) -> OpRec
         self.scope_stack = []  # model M4: list of (mgr name, saved value)
+        # scopes held open outside the call stack (suspended generator / ExitStack / manual
+        # __enter__): they can be left in any order relative to scopes of the *other* setting
+        self.held = {}
+        self.var_stack = {"track": [], "guard": []}  # per setting: open scopes, oldest first
+        self.scope_seq = 0
         self.tracking = True
         self.guard = True
         self.guard_default = True
@@ -408,6 +413,8 @@ class World:
             o.before_quiescence(self)
         while self.scope_stack:
             self._exit_scope(None)
+        for hid in sorted(self.held, key=lambda k: -self.held[k]["seq"]):
+            self._close_held(hid, False)
         held_arrays = dict(self.A)
         orig = dict(self.a_orig)
         entered = dict(self.a_entered)
@@ -1554,6 +1561,122 @@ class World:
         m.__exit__(None, None, None)
         self._exit_model()
 
+    VAR = {"no_autodiff": "track", "mem_guard_on": "guard", "mem_guard_off": "guard"}
+
+    def ev_hold_open(self, ev):
+        """a scope entered but not left by the end of the statement: a generator suspended inside
+        `with m:`, an ExitStack, or a manual __enter__().  It stays open until a hold_close."""
+        hid, name = ev["id"], ev["mgr"]
+        if hid in self.held:
+            return self._skip("dup")
+        m = self.MGRS[name]()
+        style = ev.get("style", "gen")
+        var = self.VAR[name]
+        saved = self.tracking if var == "track" else self.guard
+        if style == "gen":
+
+            def holder():
+                with m:
+                    yield 1
+                yield 2
+
+            obj = holder()
+            next(obj)
+        elif style == "stack":
+            import contextlib
+
+            obj = contextlib.ExitStack()
+            obj.enter_context(m)
+        else:
+            m.__enter__()
+            obj = m
+        self.scope_seq += 1
+        self.held[hid] = {"mgr": name, "var": var, "saved": saved, "style": style, "obj": obj, "seq": self.scope_seq}
+        self.var_stack[var].append(("held", hid, self.scope_seq))
+        if name == "no_autodiff":
+            self.tracking = False
+        else:
+            self.guard = name == "mem_guard_on"
+        self.probe("c15.held_scope_opened")
+        for o in self.obs:
+            o.scope_event(self, "enter", name)
+        return Outcome("ok")
+
+    def _close_held(self, hid, exc):
+        rec = self.held.pop(hid)
+        obj, style, var = rec["obj"], rec["style"], rec["var"]
+        other = self.var_stack["guard" if var == "track" else "track"]
+        if other and other[-1][2] > rec["seq"]:
+            self.probe("c15.interleaved_exit")  # left while a scope of the other setting, entered later, is still open
+        if style == "gen":
+            if exc:
+                obj.close()  # GeneratorExit travels through the with statement
+            else:
+                next(obj)
+                obj.close()
+        elif style == "stack":
+            if exc:
+                try:
+                    raise BodyRaise(0)
+                except BodyRaise as e:
+                    obj.__exit__(type(e), e, e.__traceback__)
+            else:
+                obj.close()
+        else:
+            if exc:
+                try:
+                    raise BodyRaise(0)
+                except BodyRaise as e:
+                    obj.__exit__(type(e), e, e.__traceback__)
+            else:
+                obj.__exit__(None, None, None)
+        vs = self.var_stack[var]
+        assert vs and vs[-1][:2] == ("held", hid)
+        vs.pop()
+        if var == "track":
+            self.tracking = rec["saved"]
+        else:
+            self.guard = rec["saved"]
+        if exc:
+            self.probe("c15.exceptional_exit")
+        for o in self.obs:
+            o.scope_event(self, "exit_exc" if exc else "exit", rec["mgr"])
+
+    def ev_hold_close(self, ev):
+        hid = ev["id"]
+        if hid not in self.held:
+            return self._skip("ref")
+        vs = self.var_stack[self.held[hid]["var"]]
+        if vs[-1][:2] != ("held", hid):
+            # leaving it now would not be last-in-first-out *for its own setting*: the statement
+            # "restores what was in force on entry" has no agreed meaning then
+            return self._skip("nonlifo")
+        self._close_held(hid, bool(ev.get("exc")))
+        return Outcome("ok")
+
+    def abandon_held(self):
+        """run aborted (violation / harness error): leave no suspended generator behind whose
+        finaliser would run __exit__ at some later, garbage-collection-determined moment"""
+        for rec in list(self.held.values()):
+            try:
+                if rec["style"] == "gen":
+                    rec["obj"].close()
+                elif rec["style"] == "stack":
+                    rec["obj"].close()
+                else:
+                    rec["obj"].__exit__(None, None, None)
+            except Exception:
+                pass
+        self.held.clear()
+
+    def _close_held_above(self, var, key):
+        """before a with-scope of setting `var` is left: scopes of the same setting that were held
+        open inside its body are closed first (keeps every history per-setting LIFO, also after
+        shrinking removed their hold_close)"""
+        vs = self.var_stack[var]
+        while vs and vs[-1] != key:
+            self._close_held(vs[-1][1], False)
+
     def ev_scope(self, ev):
         """{"k":"scope","mgr":..,"style":"with"|"deco","body":[...]}; the body runs recursively inside
         a real with-block / decorated function.  A {"k":"raise","levels":n} statement in a body
@@ -1563,17 +1686,25 @@ class World:
         body = ev.get("body", [])
         world = self
 
+        var = self.VAR[name]
+        self.scope_seq += 1
+        key = ("with", self.scope_seq, self.scope_seq)
+
         def run_body():
             world._enter_model(name)
+            world.var_stack[var].append(key)
             for o in world.obs:
                 o.scope_event(world, "enter", name)
-            for sub in body:
-                world.step(sub)
-                if world.violations and world.cfg.get("stop_on_violation", True):
-                    break
-            if ev.get("raise"):
-                world.count("fault.body_exception")
-                raise BodyRaise(0)
+            try:
+                for sub in body:
+                    world.step(sub)
+                    if world.violations and world.cfg.get("stop_on_violation", True):
+                        break
+                if ev.get("raise"):
+                    world.count("fault.body_exception")
+                    raise BodyRaise(0)
+            finally:
+                world._close_held_above(var, key)
 
         caught = None
         try:
@@ -1585,6 +1716,8 @@ class World:
         except BodyRaise as e:
             caught = e
         self._exit_model()
+        if self.var_stack[var] and self.var_stack[var][-1] == key:
+            self.var_stack[var].pop()
         for o in self.obs:
             o.scope_event(self, "exit_exc" if caught is not None else "exit", name)
         out = Outcome("ok")
@@ -1636,7 +1769,7 @@ class World:
             elif how == "copy":
                 r = t.copy(constant=c)
             elif how == "astype":
-                r = t.astype(out_dt, constant=c)
+                r = t.astype(out_dt, constant=c) if ev.get("copy", True) else t.astype(out_dt, copy=False, constant=c)
             elif how == "asarray":
                 r = mg.asarray(t)
             else:
@@ -1644,7 +1777,7 @@ class World:
         except Exception as e:
             st = "fail" if expect_fail else "unexp"
             return Outcome(st, type(e).__name__, str(e)[:200], expected_fail=expect_fail)
-        self.last_conv = {"src": src, "how": how, "result_is_src": r is t, "dtype_match": npdt is None or npdt == t.dtype, "const_match": c is None or c is bool(t.constant),
+        self.last_conv = {"src": src, "how": how, "copy": ev.get("copy", True), "result_is_src": r is t, "dtype_match": npdt is None or npdt == t.dtype, "const_match": c is None or c is bool(t.constant),
                           "shares": isinstance(getattr(r, "data", r), np.ndarray) and getattr(r, "data", r).size > 0 and bool(np.shares_memory(getattr(r, "data", r), t.data)), "out": ev.get("out")}
         if expect_fail:
             return Outcome("nofail")
